@@ -27,7 +27,7 @@ Requirements for the change:
 Procedure:
  1. Read the relevant code. Pick the change. Write it.
  2. Run the existing suite with the change applied and confirm it is still green:   cd /tmp/seed/{i} && cargo nextest run --workspace --no-fail-fast --offline 2>&1 | tail -5     (baseline: 181 tests pass, 6 skipped; it takes about 1–2 minutes the first time). If any test fails, your change is not acceptable — adjust it.
- 3. Write a demonstration: a new integration test file or a small example program INSIDE the worktree (e.g. /tmp/seed/{i}/<crate>/tests/seed_demo.rs — a new file, not part of the patch) that deterministically FAILS with your change and PASSES without it (git stash / git apply -R to check both ways). For schedule-dependent defects make the demonstration deterministic if you can (barriers, a controlled order of operations, or many iterations with an explanation) and say how reliable it is.
+ 3. Write a demonstration: a new integration test file or a small example program INSIDE the worktree (e.g. /tmp/seed/{i}/<crate>/tests/seed_demo.rs — a new file, not part of the patch) that deterministically FAILS with your change and PASSES without it (use `git diff > /tmp/seed/<ID>/my.patch; git apply -R my.patch` and `git apply my.patch` to check both ways — do NOT use `git stash`: the stash is shared between all worktrees of this repository and other agents use it concurrently). For schedule-dependent defects make the demonstration deterministic if you can (barriers, a controlled order of operations, or many iterations with an explanation) and say how reliable it is.
  4. Produce the deliverables in /tmp/seed/{i}/OUT/ :
       patch.diff   — `git diff` of the SOURCE change only (must apply with `git apply` to a clean checkout of this commit; do not include the demonstration or Cargo.lock noise)
       demo/        — the demonstration file(s) with a README.txt: where to put them and the exact command to run them
